@@ -52,6 +52,9 @@ type UnitCase struct {
 	// preprocess
 	Flag    *WFlag    `json:"flag,omitempty"`
 	Segment *WSegment `json:"segment,omitempty"`
+	// codec
+	Doc    *JV `json:"doc,omitempty"`
+	GoTree *JV `json:"goTree,omitempty"`
 
 	Go map[string]any `json:"go,omitempty"`
 }
@@ -77,6 +80,9 @@ func (c *UnitCase) run() {
 			c.Go = map[string]any{"panic": fmt.Sprint(r)}
 		}
 	}()
+	if c.runCodec() {
+		return
+	}
 	switch c.Kind {
 	case "bucket":
 		ctx := c.Ctx.build()
@@ -103,6 +109,10 @@ func (c *UnitCase) run() {
 		v, ok := evaluation.VerifParseHexUint64(b)
 		c.Go = map[string]any{"ok": ok, "v": strconv.FormatUint(v, 10)}
 	case "time":
+		if c.V == nil {
+			n := jNull()
+			c.V = &n
+		}
 		// both conversion sites: the context side and (through a preprocessed and a plain clause)
 		// the clause side must agree with each other; report the context-side value and flag any
 		// disagreement between the three.
